@@ -4,10 +4,24 @@
 use crate::sx::{f32_sx, Sx};
 use pushr::push::graph::{Edge, Graph};
 
-pub const SUITES: &[(&str, fn(&Sx) -> Sx)] = &[("graph", run)];
+pub const SUITES: &[(&str, fn(&Sx) -> Sx)] = &[("graph", run), ("graph.eq", run_eq)];
 
 fn run(c: &Sx) -> Sx {
-    match go(c) { Some(v) => v, None => Sx::bad() }
+    match play(c) {
+        Some((regs, ids, outs)) => {
+            let fin: Vec<Sx> = regs.iter().map(|g| content(g, &ids)).collect();
+            Sx::L(vec![Sx::L(outs), Sx::L(fin)])
+        }
+        None => Sx::bad(),
+    }
+}
+
+/// `==` (impl PartialEq for Graph) between all pairs of registers after the history
+fn run_eq(c: &Sx) -> Sx {
+    match play(c) {
+        Some((regs, _, _)) => Sx::list(regs.iter(), |a| Sx::list(regs.iter(), |b| Sx::b(a == b))),
+        None => Sx::bad(),
+    }
 }
 
 struct Ids { issued: Vec<usize> }
@@ -151,7 +165,7 @@ fn content(g: &Graph, ids: &Ids) -> Sx {
     Sx::L(vec![Sx::L(ns.into_iter().map(|x| x.1).collect()), Sx::L(es.into_iter().map(|x| x.1).collect())])
 }
 
-fn go(c: &Sx) -> Option<Sx> {
+fn play(c: &Sx) -> Option<(Vec<Graph>, Ids, Vec<Sx>)> {
     let c = c.as_l()?;
     if c.len() != 3 { return None; }
     let p = c[0].as_z()?;
@@ -242,6 +256,5 @@ fn go(c: &Sx) -> Option<Sx> {
         };
         outs.push(o);
     }
-    let fin: Vec<Sx> = regs.iter().map(|g| content(g, &ids)).collect();
-    Some(Sx::L(vec![Sx::L(outs), Sx::L(fin)]))
+    Some((regs, ids, outs))
 }
